@@ -19,6 +19,8 @@ def replay_behaviours(c, rt, jsonl, elems, parts=4):
             meta.append((e, p, fo))
     total_b = total_s = 0
     for (rc, summ, out), (e, p, fo) in zip(run_parallel(cmds, timeout=1500), meta):
+        if rc == 2 or rc == 124:
+            raise lib.ToolError("adapter reported a tool error / timed out (rc=%s) on %s" % (rc, p))
         if rc != 0 or summ is None:
             # a crash of the child while driving the real code is a symptom of the property failing
             c.violation("replay child crashed (rc=%s) on %s elem=%s" % (rc, p, e), {"file": p, "elem": e})
@@ -40,6 +42,8 @@ def validate_traces(c, rt, events, nfiles, s):
         cmds.append([rt, "vec", "trace", path, "--seed", str(s * 1000 + i), "--events", str(events), "--slots", "3"])
         paths.append(path)
     for (rc, summ, out), path in zip(run_parallel(cmds), paths):
+        if rc == 2 or rc == 124:
+            raise lib.ToolError("trace driver reported a tool error / timed out (rc=%s)" % rc)
         if rc != 0:
             c.violation("trace driver crashed rc=%s" % rc, {"trace": path})
             continue
